@@ -42,9 +42,11 @@ def make_candidates(m, raising):
     return classes
 
 
-def selection_case(m, raising, kind='class'):
-    """the real select_univariate on stub candidates with symbolic KS statistics"""
+def selection_case(m, raising, kind='class', nans=()):
+    """the real select_univariate on stub candidates with symbolic KS statistics; candidates in `nans`
+    have a NaN statistic (a cdf that is NaN on the data): they are not a minimum of anything"""
     raising = set(raising)
+    nans = set(nans) - raising
 
     def fn(ctx):
         cands = make_candidates(m, raising)
@@ -55,6 +57,8 @@ def selection_case(m, raising, kind='class'):
         def kstest(X, cdf, *a, **k):
             inst = cdf.__self__
             ctx.log.append(('kstest', type(inst).K, inst.fitted))
+            if type(inst).K in nans:
+                return float('nan'), float('nan')
             return ks[type(inst).K], 0.5
         X = symarr('x', 3)
         protos = [c() if kind == 'instance' else c for c in cands]
@@ -64,7 +68,8 @@ def selection_case(m, raising, kind='class'):
     paths, ex, _ = explore(fn, max_paths=5000, tlimit=120)
     bad = []
     models = []
-    ok_ids = [k for k in range(m) if k not in raising]
+    fit_ids = [k for k in range(m) if k not in raising]
+    ok_ids = [k for k in fit_ids if k not in nans]
 
     def pc_model(p):
         s_ = z3.Solver()
@@ -95,9 +100,9 @@ def selection_case(m, raising, kind='class'):
             bad.append(f'selected candidate {k} does not have the minimal KS statistic')
             models.append([model_value(s.model(), v.t) for v in ks])
         called = [e[1] for e in p.ctx.log if e[0] == 'kstest']
-        if sorted(called) != ok_ids:
-            bad.append(f'KS computed for {called}, expected exactly the fittable candidates {ok_ids}')
-    return {'m': m, 'raising': sorted(raising), 'kind': kind, 'paths': len(paths), 'exhaustive': ex, 'bad': bad[:3], 'models': models[:3]}
+        if sorted(called) != fit_ids:
+            bad.append(f'KS computed for {called}, expected exactly the fittable candidates {fit_ids}')
+    return {'m': m, 'raising': sorted(raising), 'kind': kind, 'nans': sorted(nans), 'paths': len(paths), 'exhaustive': ex, 'bad': bad[:3], 'models': models[:3]}
 
 
 def filters_case():
@@ -325,7 +330,7 @@ def concrete_violation():
     return False, ''
 
 
-def concrete_selection(ks_values, raising=()):
+def concrete_selection(ks_values, raising=(), nans=()):
     """the real select_univariate on concrete user-defined candidates whose KS distances to the data are
     (about) the given values: candidate k's cdf is the uniform cdf shifted by ks_values[k]"""
     n = 400
@@ -339,17 +344,21 @@ def concrete_selection(ks_values, raising=()):
                 raise RuntimeError('cannot fit')
             self.fitted = True
 
-        def cdf(self, x, dlt=dlt):
+        def cdf(self, x, dlt=dlt, k=k):
+            if k in nans:
+                return np.full(np.shape(x), np.nan)
             return np.clip(np.asarray(x, dtype=float) + dlt, 0.0, 1.0)
         classes.append(type(f'Shift{k}', (), {'fit': fit, 'cdf': cdf, 'fitted': False, 'K': k}))
     try:
         r = select_univariate(X, classes)
     except Exception as e:
         return True, f'select_univariate raises {type(e).__name__}: {e} for candidate KS distances {list(ks_values)} (failing: {list(raising)})'
-    ok = [k for k in range(len(ks_values)) if k not in raising]
+    fit_ok = [k for k in range(len(ks_values)) if k not in raising]
+    ok = [k for k in fit_ok if k not in nans] or fit_ok
     k = getattr(type(r), 'K', None)
     if k not in ok:
-        return True, f'select_univariate returned {type(r).__name__} for candidate KS distances {list(ks_values)} (failing: {list(raising)})'
+        return True, (f'select_univariate returned {type(r).__name__} for candidate KS distances {list(ks_values)} '
+                      f'(failing: {list(raising)}, NaN statistic: {list(nans)})')
     if ks_values[k] > min(ks_values[i] for i in ok) + 2.0 / n:
         return True, f'select_univariate chose candidate {k} (KS {ks_values[k]}) although {min(ks_values[i] for i in ok)} is available'
     return False, ''
@@ -357,7 +366,7 @@ def concrete_selection(ks_values, raising=()):
 
 def replay(d):
     if d.get('ks') is not None:
-        bad, detail = concrete_selection(d['ks'], d.get('raising', ()))
+        bad, detail = concrete_selection(d['ks'], d.get('raising', ()), d.get('nans', ()))
         print(detail)
         return bad
     bad, detail = concrete_violation()
@@ -372,9 +381,9 @@ def run(tier, seed):
     ck.encode(select_univariate, Univariate._select_candidates, Univariate.__init__, Univariate.fit,
               GaussianMultivariate._get_distribution_for_column, GaussianMultivariate._fit_column,
               GaussianMultivariate._fit_with_fallback_distribution)
-    ck.stubs = ['candidate distributions: stub classes whose fit may raise', 'scipy.stats.kstest: symbolic statistic in [0,1] per candidate']
+    ck.stubs = ['candidate distributions: stub classes whose fit may raise', 'scipy.stats.kstest: symbolic statistic in [0,1] per candidate, or NaN']
     mmax = 3 if tier == 'quick' else 4
-    ck.bounds = {'candidates': f'<= {mmax}, every subset raising in fit', 'KS statistics': 'arbitrary reals in [0,1] (ties included)',
+    ck.bounds = {'candidates': f'<= {mmax}, every subset raising in fit', 'KS statistics': 'arbitrary reals in [0,1] (ties included); every proper non-empty subset of candidates with a NaN statistic',
                  'filters': 'all 12 (parametric, bounded) combinations', 'column names': 'strings of length <= 3 (CrossHair)'}
     ck.outside = ['that scipy.stats.kstest computes the KS distance', 'the case where every candidate fails (outside the property wording)']
     ck.assumptions = ['stub contracts']
@@ -384,6 +393,11 @@ def run(tier, seed):
             for raising in itertools.combinations(range(m), r):
                 jobs.append(('sel', m, raising, 'class'))
         jobs.append(('sel', m, (), 'instance'))
+        if m >= 2:
+            for k in range(1, m):
+                for nn in itertools.combinations(range(m), k):
+                    jobs.append(('sel', m, (), 'class', nn))
+            jobs.append(('sel', m, (m - 1,), 'class', (0,)))
     for e in ('RuntimeError', 'ValueError', 'Exception'):
         jobs.append(('fallback', e))
     viol = False
@@ -395,8 +409,8 @@ def run(tier, seed):
         ck.paths += n
         ck.states += n
         ck.transitions += n
-        ax = tuple(a) + (None, None, None)
-        nm = {'sel': f"select_univariate: {ax[1]} candidates, {list(ax[2] or [])} failing, prototypes as {ax[3]}: fittable minimum-KS candidate, fresh instance ({n} paths)",
+        ax = tuple(a) + (None, None, None, None)
+        nm = {'sel': f"select_univariate: {ax[1]} candidates, {list(ax[2] or [])} failing, {list(ax[4] or [])} with a NaN statistic, prototypes as {ax[3]}: fittable minimum-KS candidate, fresh instance ({n} paths)",
               'filters': f'_select_candidates == registry filter for all {n} (parametric, bounded) combinations; explicit candidates win',
               'wrapper': 'Univariate.fit selects on the data, fits the selected instance, marks fitted',
               'fallback': f"a distribution raising {ax[1]} in fit => column modelled by a fitted GaussianUnivariate, fit succeeds"}[a[0]]
@@ -406,9 +420,9 @@ def run(tier, seed):
         if r['bad'] and a[0] == 'sel' and r.get('models'):
             done = False
             for mdl in r['models']:
-                b, detail = concrete_selection(mdl, tuple(a[2]))
+                b, detail = concrete_selection(mdl, tuple(a[2]), tuple(r.get('nans', ())))
                 if b:
-                    ck.violation('select_univariate', f'{nm}: {r["bad"]} -- {detail}', {'ks': mdl, 'raising': list(a[2])})
+                    ck.violation('select_univariate', f'{nm}: {r["bad"]} -- {detail}', {'ks': mdl, 'raising': list(a[2]), 'nans': list(r.get('nans', ()))})
                     done = True
                     break
             if done:
